@@ -31,7 +31,10 @@ MANIFEST = {
             "off-subgroup points at every position) and Ed25519, sync.Downloader. Tie of the proved models: translator (schemas), "
             "in-Coq comparison of decoder outcomes, Bits pre-check and rmt ok/error/true/false on the harness streams; allocation "
             "per decode on length-prefix bombs measured against the proved bound.",
-    "note": "smt.Verify/CalculateRoot index arithmetic is NOT modelled with panic outcomes yet (tested only; C10 owns a functional "
+    "note": "SCOPE GAP: 'RPC' here means the p2p sync/txpool RPC endpoints only; the RPC-CLIENT half of the statement (pkg/rpc "
+            "http/ws JSON-RPC server, pkg/engine/endpoint handlers, IPC) is NOT exercised and not modelled (DESIGN lists pkg/rpc as "
+            "not modelled); only the codec.Lisk32 / Hex JSON members such requests carry are driven. "
+            "smt.Verify/CalculateRoot index arithmetic is NOT modelled with panic outcomes yet (tested only; C10 owns a functional "
             "model). getHeight/getLayerStructure are floating-point code: the rmt theorem takes them as parameters with the "
             "hypothesis len(structure) = height <= 4096. Time: model step bounds + watchdog; memory: proved readBytes bound + measured "
             "TotalAlloc per call (minimum of 3 runs, measured before any Executer/libp2p host exists in the process).",
@@ -54,6 +57,7 @@ def bits_term(r):
     return "(%d%%nat, %s, %d%%nat, %d, %s)" % (nkeys, cbytes(a["bits"]), nw, r["st"], cbool(r["res"] == "true"))
 
 
+HARNESS_EXIT = 3
 P2P_ALLOC_FACTOR, P2P_ALLOC_CONST = 32, 1 << 20   # whole-process TotalAlloc while one stream is handled
 # smallest number of cases of each record kind a (non-replay) run must contain: met by construction, a generator that silently
 # produces nothing fails the check instead of passing it
@@ -61,7 +65,7 @@ FLOORS = {"s": 5000, "v": 2000, "n": 3000, "m": 1000, "p": 50, "bits": 100, "rmt
 ALLOC_FACTOR, ALLOC_CONST = 64, 32768   # bytes allocated by one decode <= 64 * len(input) + 32 KiB
 
 
-def run_p2p(ck, binp, scale, replay_in=None, background=False, prestarted=None):
+def run_p2p(ck, binp, scale, replay_in=None, background=False, prestarted=None, retried=False):
     """Raw bytes on the request/response streams of a loopback MessageProtocol. The receiver lives in the harness process: a
     panic in its stream goroutine kills the process; the cases still pending then are the violating inputs."""
     import subprocess
@@ -82,7 +86,21 @@ def run_p2p(ck, binp, scale, replay_in=None, background=False, prestarted=None):
         from concurrent.futures import ThreadPoolExecutor
         return ThreadPoolExecutor(max_workers=1).submit(execute)
     rc, err = prestarted.result() if prestarted is not None else execute()
+    if rc == HARNESS_EXIT:   # the driver's own setup failed (listen / connect / first ping): one retry, never a property violation
+        ck.notes.append("p2p driver setup failed once (%s); retried" % err[-200:])
+        if os.path.exists(outp):
+            os.remove(outp)
+        rc, err = execute()
+        if rc == HARNESS_EXIT:
+            why = ""
+            if os.path.exists(outp):
+                for line in open(outp):
+                    if '"phase":"harness"' in line:
+                        why = json.loads(line).get("gen", "")
+            ck.fail_obligation("harness-run:p2p", "p2p stream driver could not set up its loopback hosts (twice): %s %s" % (why, err[-300:]))
+            return
     pending, done, ended, recent = {}, 0, False, []
+    found = []   # failures of this pass; committed only if the pass is complete
     per_class = {False: 0, True: 0}
     if os.path.exists(outp):
         for line in open(outp):
@@ -108,17 +126,20 @@ def run_p2p(ck, binp, scale, replay_in=None, background=False, prestarted=None):
                 ck.extra["p2p_max_settle_ms"] = max(ck.extra.get("p2p_max_settle_ms", 0), r.get("settle_ms", 0))
                 ck.extra["p2p_max_alloc"] = max(ck.extra.get("p2p_max_alloc", 0), r.get("alloc", 0))
                 why = None
-                if r.get("gleak", 0) > 0:
+                if "unresponsive" in r.get("send", ""):
+                    why = "the receiver stopped answering requests although its gater holds no penalty or ban for the sender"
+                elif r.get("gleak", 0) > 0:
                     why = "%d goroutine(s) still alive %d ms after the stream was closed (handler blocked)" % (r["gleak"], r.get("settle_ms", 0))
                 elif r.get("alloc", 0) > P2P_ALLOC_FACTOR * n + P2P_ALLOC_CONST:
                     why = "%d bytes allocated for a %d-byte message (> %d*len+%d)" % (r["alloc"], n, P2P_ALLOC_FACTOR, P2P_ALLOC_CONST)
                 if why:
                     name = "onResponse" if r["resp"] else "onRequest"
-                    f = dict(kind="input", key="c09:p:%s:%s" % (name, "hang" if r.get("gleak", 0) > 0 else "alloc"), case=r,
+                    cls = "unresponsive" if "unresponsive" in r.get("send", "") else "hang" if r.get("gleak", 0) > 0 else "alloc"
+                    f = dict(kind="input", key="c09:p:%s:%s" % (name, cls), case=r,
                              what="p2p MessageProtocol %s: %s on raw stream bytes %s" % (name, why, r["d"][:200]))
                     f["spec_violated"] = True
                     f["theorem_or_correspondence"] = "C09 oracle: stream handlers terminate, memory bounded by the message size"
-                    ck.failures.append(f)
+                    found.append(f)
             elif r["phase"] == "late":
                 name = "onResponse" if r["resp"] else "onRequest"
                 f = dict(kind="input", key="c09:p:%s:hang" % name, case=dict(r, phase="pending"),
@@ -126,13 +147,27 @@ def run_p2p(ck, binp, scale, replay_in=None, background=False, prestarted=None):
                               "(handler started late and never returned) on raw stream bytes %s" % (name, r.get("gleak", 0), r["d"][:200]))
                 f["spec_violated"] = True
                 f["theorem_or_correspondence"] = "C09 oracle: stream handlers terminate"
-                ck.failures.append(f)
+                found.append(f)
+            elif r["phase"] == "harness":
+                continue
             elif r["phase"] == "end":
                 ended = True
+                if not r.get("alive", True):
+                    ck.fail_obligation("harness-run:p2p", "the last loopback pair did not answer the final ping")
     ck.extra["p2p_stream_cases"] = done
     if rc == 0 and ended and not replay_in and min(per_class.values()) < FLOORS["p"]:
         ck.fail_obligation("harness-run:p2p", "p2p stream driver ran only %d request-stream and %d response-stream cases (floor %d each)" % (
             per_class[False], per_class[True], FLOORS["p"]))
+    if rc == 0 and not ended:
+        # the driver exited normally but its output has no end record: the file was disturbed (e.g. two runs sharing one work
+        # directory) - an orchestration problem, not a crash of the node: one retry, then an obligation failure
+        if not retried and not replay_in:
+            ck.notes.append("p2p driver output incomplete although it exited 0; retried")
+            return run_p2p(ck, binp, scale, retried=True)
+        ck.fail_obligation("harness-run:p2p", "p2p stream driver exited 0 but its output is incomplete (twice)")
+        return
+    ck.failures.extend(found)
+    found = ck.failures
     if rc != 0 or not ended:
         if pending:
             for i, r in sorted(pending.items())[-1:]:
@@ -143,7 +178,7 @@ def run_p2p(ck, binp, scale, replay_in=None, background=False, prestarted=None):
                              rc, ", ".join([x["d"][:120] for x in recent] + [r["d"][:120]]), err[-400:]))
                 f["spec_violated"] = True
                 f["theorem_or_correspondence"] = "C09 oracle: p2p stream handlers survive any byte string"
-                ck.failures.append(f)
+                found.append(f)
         else:
             ck.fail_obligation("harness-run:p2p", "p2p stream driver exited %s without a pending case: %s" % (rc, err))
 
@@ -161,6 +196,9 @@ def evaluate(ck, recs, sample_cap, floors=False):
     # 1. the property oracle on every record: no recovered panic, no timeout
     for r in recs:
         ck.count()
+        if r["k"] == "v" and r.get("st") == 5:   # the driver could not set the scenario up: not a verdict about the code
+            ck.fail_obligation("harness-run:%s" % r["f"], "harness setup of %s failed: %s" % (r["f"], r.get("res")))
+            continue
         if r["k"] in ("n", "v") and "ms" in r:
             # informative only: wall time and process-wide allocation per call (the enforced time bound is the 3 s watchdog)
             ck.extra["max_call_ms"] = max(ck.extra.get("max_call_ms", 0), r["ms"])
